@@ -83,6 +83,9 @@ class C27(Scenario):
                             # file-focused: the n-th line event inside one state-carrying module
                             par = {"n": int(10 ** rng.uniform(0, 2.5)), "defer": arm != "untorn-off", "files": [rng.choice(FOCUS_FILES)]}
                         u["op"] = ["fault", rng.choice(["interrupt", "interrupt", "memerr"]), par, op]
+                elif arm in ("fault-free", "aliasing", "long") and op[0] == "call" and isinstance(op[2], str) and (op[2].startswith("ufl.") or op[2].startswith("sim.ops.")) and rng.random() < 0.4:
+                    # if the algorithm fails on its own it is repeated at once (clause M4)
+                    u["op"] = ["twice", None, op]
                 units.append(u)
             else:
                 units.append({"k": "setup", "n": 0, "op": op})
@@ -179,6 +182,7 @@ class C27(Scenario):
             "interrupt_swallowed_by_ufl": 0,
             "torn_tables_after_stack_fault": 0,
             "metadata_dicts_tracked": 0,
+            "aborted_op_repeated": 0,
         }
         torn = bool(plan.get("observe_only"))
         last_alg = None
@@ -251,6 +255,19 @@ class C27(Scenario):
                     torn = True
                     probes["torn_tables_after_stack_fault"] += 1
                 last_alg = _opname(op[3]) + "[" + kind + "]"
+            elif name == "twice":
+                last_alg = _opname(op[2])
+                faults["abort"]["configured"] += 1
+                v = r.get("ok")
+                if isinstance(v, dict) and "first" in v and "second" in v:
+                    faults["abort"]["fired"] += 1
+                    probes["alg_ops_aborted_naturally"] += 1
+                    probes["aborted_op_repeated"] = probes.get("aborted_op_repeated", 0) + 1
+                    if v["first"] != v["second"] and ("M4", last_alg) not in reported:
+                        reported.add(("M4", last_alg))
+                        viols.append({"clause": "M4-repetition-of-aborted-op-differs", "unit": ui, "fingerprint": last_alg, "detail": {"op": last_alg, "first": v["first"], "second": v["second"]}})
+                elif "ok" in r:
+                    probes["alg_ops_completed"] += 1
             else:
                 last_alg = _opname(op)
                 faults["abort"]["configured"] += 1
